@@ -51,7 +51,7 @@ MANIFEST = {
 EXPLANATION = MANIFEST["level_text"]
 TRUSTED = [
     "pyvc VC generator (exception forks at every raise site, try/except/finally, generator-based context managers inlined around their yield, ContextVar model)",
-    "z3 5.1.0 / cvc5 1.0.3",
+    "z3 5.1.0 / cvc5 1.4.0",
     "falcon: an HTTPError raised in process_request or a responder is answered with the error's status and the body written by app.set_error_serializer's callback; any other exception is answered 500; req.content_type is the Content-Type header or None; resp.status / content_type / stream / data / set_header are plain setters",
     "pyarrow: ipc.open_stream raises ArrowInvalid on non-IPC bytes; read_next_batch_with_custom_metadata returns a batch, raises ArrowInvalid (corrupt message) or StopIteration (end of stream); an IPC writer produces a decodable stream (schema, batches, EOS)",
 ]
